@@ -25,7 +25,7 @@ def Pc.isInflightB : Pc → Bool
   | .qSwapped _ _ _ => false | .sRaising _ => false | .sRaised _ _ => false | .sDone => false
   | .rTop => false | .rLdHigh _ => false | .rLdLow _ _ => false | .rRdBuf _ _ _ => false | .rCleared _ _ => false
   | .rGotHead _ => false | .rGotNext _ _ => false | .rMoved _ _ => false | .rGotData _ _ => false
-  | .rWrote _ _ => false | .rEmpty => false | .rWaiting => false | .rDone _ => false
+  | .rWrote _ _ => false | .rEmpty => false | .rWaiting => false | .rDone _ => false | .tEmpty => false
 
 def binFlight (s : St) (g : Nat) : Prop := (s.pc g).isInflightB = true
 
@@ -43,7 +43,7 @@ structure BWInv (s : St) : Prop where
 theorem bwinv_init (cap : Nat) : BWInv (init .bounded cap) := by
   constructor
   · exact Signal.pinv_init
-  all_goals simp [init, Signal.pinit, bavail, PPc.inWait, committed, binFlight, Pc.isInflightB]
+  all_goals simp [init, initM, Signal.pinit, bavail, PPc.inWait, committed, binFlight, Pc.isInflightB]
 
 /-- a written slot at `low` means `low` has been claimed -/
 theorem bavail_lt {s : St} (hb : BInv s) (hcap : 0 < s.cap) (ha : bavail s) : s.low < s.high := by
